@@ -96,27 +96,31 @@ MassBalance == Ready => Mass(ph, cf.grids) = acct
 FrozenMarginal == Ready => \A k \in 1..cf.P : cf.frozen[k] =>
     \A v \in 1..(Len(cf.grids[k]) - 2) :
         MarginalAt(ph, cf.grids, {k}, [j \in {k} |-> v]) = MarginalAt(ph0, cf.grids, {k}, [j \in {k} |-> v])
-\* C04 / C02: structure of every line system of the current configuration
-LinesOK == Ready => \A k \in 1..cf.P : \A ix \in LineIxs(Sh(cf), k) :
-    LET g == cf.grids[k] N == Len(g) w == TrapW(g) p == cf.par[k]
+\* structure of every line system of the current configuration
+LineLaw(Law(_, _, _, _, _, _, _)) == Ready => \A k \in 1..cf.P : \A ix \in LineIxs(Sh(cf), k) :
+    LET g == cf.grids[k] p == cf.par[k]
         c0 == AllOthers(cf.grids, k, ix, "0") c1 == AllOthers(cf.grids, k, ix, "1")
         sys == SysOf(cf.grids, k, ix, p)
+    IN  Law(k, ix, g, p, c0, c1, sys)
+\* C04: column sums vanish except at the absorbing end nodes of corner lines, where they are the non-negative outflow rates;
+\* without migration and selection the interior is decoupled from the end nodes
+LinesConservative == LineLaw(LAMBDA k, ix, g, p, c0, c1, sys :
+    LET N == Len(g) w == TrapW(g)
         col(i) == RAdd(RAdd(IF i > 1 THEN RMul(w[i - 1], sys.c[i - 1]) ELSE "0", RMul(w[i], sys.b[i])),
                        IF i < N THEN RMul(w[i + 1], sys.a[i + 1]) ELSE "0")
-        py == LineABCPy(g, k, Others(cf.grids, ix), p, HalfDelj(g), c0, c1)
-    IN  \* column sums: zero except the absorbing end nodes of corner lines, where they are the non-negative outflow rates
-        /\ \A i \in 1..N : col(i) = (IF i = 1 THEN RMul(w[1], sys.out0) ELSE IF i = N THEN RMul(w[N], sys.out1) ELSE "0")
+    IN  /\ \A i \in 1..N : col(i) = (IF i = 1 THEN RMul(w[1], sys.out0) ELSE IF i = N THEN RMul(w[N], sys.out1) ELSE "0")
         /\ RNonNeg(sys.out0) /\ RNonNeg(sys.out1)
         /\ (~c0 => sys.out0 = "0") /\ (~c1 => sys.out1 = "0")
-        \* precomputed-coefficient form = on-the-fly form (constant vs time-function parameters)
-        /\ py.a = sys.a /\ py.b = sys.b /\ py.c = sys.c
-        \* without migration and selection the interior is decoupled from the end nodes
-        /\ ((p.gamma = "0" /\ \A j \in 1..cf.P : p.mig[j] = "0") => (sys.a[2] = "0" /\ sys.c[N - 1] = "0"))
-        \* C03: re-expressing relative to another reference size rescales the system and the time-step bound
-        /\ \A cc \in {"1/20", "1/3", "7"} :
-              LET s2 == LineABC(g, k, Others(cf.grids, ix), RescaleP(cc, p), HalfDelj(g), c0, c1) IN
-              /\ s2.a = ScaleSys(RDiv("1", cc), sys).a /\ s2.b = ScaleSys(RDiv("1", cc), sys).b /\ s2.c = ScaleSys(RDiv("1", cc), sys).c
-              /\ MaxVM(k, RescaleP(cc, p)) = RDiv(MaxVM(k, p), cc)
+        /\ ((p.gamma = "0" /\ \A j \in 1..cf.P : p.mig[j] = "0") => (sys.a[2] = "0" /\ sys.c[N - 1] = "0")))
+\* C02: precomputed-coefficient form = on-the-fly form (constant vs time-function parameters)
+LinesPrecalc == LineLaw(LAMBDA k, ix, g, p, c0, c1, sys :
+    LET py == LineABCPy(g, k, Others(cf.grids, ix), p, HalfDelj(g), c0, c1) IN py.a = sys.a /\ py.b = sys.b /\ py.c = sys.c)
+\* C03: re-expressing relative to another reference size rescales the system and the time-step bound
+LinesRescale == LineLaw(LAMBDA k, ix, g, p, c0, c1, sys :
+    \A cc \in {"1/20", "1/3", "7"} :
+        LET s2 == LineABC(g, k, Others(cf.grids, ix), RescaleP(cc, p), HalfDelj(g), c0, c1) IN
+        /\ s2.a = ScaleSys(RDiv("1", cc), sys).a /\ s2.b = ScaleSys(RDiv("1", cc), sys).b /\ s2.c = ScaleSys(RDiv("1", cc), sys).c
+        /\ MaxVM(k, RescaleP(cc, p)) = RDiv(MaxVM(k, p), cc))
 \* C02: the Thomas recurrence solves the line system exactly; the step is linear in the density
 StepOK == [][\A k \in 1..cf.P : Sweep(k) => IsStep(ph, ph', cf.grids, k, cf.par[k], cf.dt, "0")]_vars
 \* C04: with no migration and no selection, the marginal of population 1 evolves as if integrated alone
